@@ -126,7 +126,7 @@ type outcome struct {
 
 var controlPlane = map[string]bool{"picker": true, "picker-retry": true, "cfgsel": true, "creds-dial": true, "creds-call": true}
 
-func cases() []fcase {
+func cases(thorough bool) []fcase {
 	var out []fcase
 	var statusVariants []fcase
 	for _, v := range []string{"status", "wrapped", "joined"} {
@@ -140,6 +140,9 @@ func cases() []fcase {
 		plainVariants = append(plainVariants, fcase{Variant: v})
 	}
 	modes := []string{"unary", "bidi"}
+	if thorough {
+		modes = []string{"unary", "bidi", "sstream", "cstream", "udesc"}
+	}
 	for _, src := range []string{"picker", "picker-retry", "cfgsel", "creds-dial", "creds-call", "dialer", "handshake", "codec-marshal", "codec-unmarshal", "server"} {
 		vs := append(append([]fcase(nil), statusVariants...), plainVariants...)
 		for _, v := range vs {
@@ -178,11 +181,11 @@ func cases() []fcase {
 	}
 	for _, f := range wireFaults() {
 		for ph := 0; ph <= 3; ph++ {
-			for _, m := range []string{"unary", "bidi", "sstream"} {
+			for _, m := range []string{"unary", "bidi", "sstream", "cstream", "udesc"} {
 				if ph == 3 && m == "unary" {
 					continue
 				}
-				if m == "sstream" && ph != 1 {
+				if !thorough && (m == "sstream" && ph != 1 || m == "cstream" || m == "udesc") {
 					continue
 				}
 				out = append(out, fcase{Source: "wire", Variant: f, Phase: ph, Mode: m})
@@ -271,7 +274,9 @@ func (h errHandshake) ClientHandshake(context.Context, string, net.Conn) (net.Co
 func (h errHandshake) ServerHandshake(net.Conn) (net.Conn, credentials.AuthInfo, error) {
 	return nil, nil, errors.New("client only")
 }
-func (h errHandshake) Info() credentials.ProtocolInfo          { return credentials.ProtocolInfo{SecurityProtocol: "verif"} }
+func (h errHandshake) Info() credentials.ProtocolInfo {
+	return credentials.ProtocolInfo{SecurityProtocol: "verif"}
+}
 func (h errHandshake) Clone() credentials.TransportCredentials { return h }
 func (h errHandshake) OverrideServerName(string) error         { return nil }
 
@@ -737,7 +742,9 @@ func (plainCreds) ClientHandshake(_ context.Context, _ string, c net.Conn) (net.
 func (plainCreds) ServerHandshake(c net.Conn) (net.Conn, credentials.AuthInfo, error) {
 	return c, plainAuth{}, nil
 }
-func (plainCreds) Info() credentials.ProtocolInfo          { return credentials.ProtocolInfo{SecurityProtocol: "verif-plain"} }
+func (plainCreds) Info() credentials.ProtocolInfo {
+	return credentials.ProtocolInfo{SecurityProtocol: "verif-plain"}
+}
 func (plainCreds) Clone() credentials.TransportCredentials { return plainCreds{} }
 func (plainCreds) OverrideServerName(string) error         { return nil }
 
@@ -884,9 +891,9 @@ func finalError(o []obs) (string, error) {
 
 func TestVerifC24(t *testing.T) {
 	r := vlib.Start(t, "C24")
-	all := cases()
+	all := cases(r.Thorough())
 	fam := "faults"
-	light := os.Getenv("VERIF_LIGHT") != ""
+	light := os.Getenv("VERIF_LIGHT") != "" && !r.Thorough() // the thorough tier runs the whole list under -race too
 	bySource := map[string]int64{}
 	for i, c := range all {
 		if !r.Want(fam, i) {
@@ -987,7 +994,7 @@ func TestVerifC24(t *testing.T) {
 	}
 	r.Finish(vlib.Spec{
 		Level: "fault_enumeration",
-		Rule: "enumerated faults: {picker, picker on a retry attempt, config selector, dial-level and call-level per-RPC credentials, dialer, transport handshake, codec Marshal / Unmarshal, server handler} x error values {status / %w-wrapped / errors.Join-ed status with each code 1..16, 17, 99; plain, context.Canceled, DeadlineExceeded, wrapped context error, io.EOF, io.ErrUnexpectedEOF, GRPCStatus()==nil, GRPCStatus() code OK, transport.ConnectionError, *transport.NewStreamError, net.ErrClosed} x {Invoke, bidi stream} x {fail-fast, wait-for-ready} (+ server/client-streaming and unary-desc streams on representative values); 75 wire faults of a scripted HTTP/2 peer (RST codes, GOAWAYs, close, reset, every grpc-status value incl. malformed/missing, non-200 / non-grpc responses, END_STREAM without trailers, compression and length-prefix lies, malformed frames) x 4 stream phases; context and channel-close at each blocking point; call-option / size-limit / compressor / metadata / retry-exhaustion faults. Oracle: every non-nil error from Invoke/NewStream and every non-nil non-io.EOF error from SendMsg/RecvMsg has status.FromError ok; control-plane status errors with an A54-restricted code end the RPC INTERNAL, the other codes 1..16 unchanged. non-trivial = a non-nil error was returned; distinct = (source, error class, mode, API that returned it, observed code)",
+		Rule:  "enumerated faults: {picker, picker on a retry attempt, config selector, dial-level and call-level per-RPC credentials, dialer, transport handshake, codec Marshal / Unmarshal, server handler} x error values {status / %w-wrapped / errors.Join-ed status with each code 1..16, 17, 99; plain, context.Canceled, DeadlineExceeded, wrapped context error, io.EOF, io.ErrUnexpectedEOF, GRPCStatus()==nil, GRPCStatus() code OK, transport.ConnectionError, *transport.NewStreamError, net.ErrClosed} x {Invoke, bidi stream} x {fail-fast, wait-for-ready} (+ server/client-streaming and unary-desc streams on representative values); 75 wire faults of a scripted HTTP/2 peer (RST codes, GOAWAYs, close, reset, every grpc-status value incl. malformed/missing, non-200 / non-grpc responses, END_STREAM without trailers, compression and length-prefix lies, malformed frames) x 4 stream phases; context and channel-close at each blocking point; call-option / size-limit / compressor / metadata / retry-exhaustion faults. Oracle: every non-nil error from Invoke/NewStream and every non-nil non-io.EOF error from SendMsg/RecvMsg has status.FromError ok; control-plane status errors with an A54-restricted code end the RPC INTERNAL, the other codes 1..16 unchanged. non-trivial = a non-nil error was returned; distinct = (source, error class, mode, API that returned it, observed code)",
 		Assumptions: []string{"the A54 table is written from the gRFC text, not from internal/status",
 			"errors with GRPCStatus() returning an OK-coded status and codes above 16 are counted (nonnil_error_with_code_ok / _unassigned_code), not judged",
 			"interceptor-produced errors are application code and not enumerated"},
